@@ -1,5 +1,5 @@
 """property id -> rules, explanation of what is / is not decided"""
-from rules import r_hist, r_lock, r_errdrop, r_coord, r_keyid, r_opcode, r_doaction, r_cancel, r_idle, r_loop, r_traverse, r_repeat, r_chv2, r_wait, r_macro, r_seq, r_override, r_reload, r_pipeline, r_dynmacro, r_vkey, r_layers, r_panic, r_prodcons, r_span, r_rec, r_evict, r_coordspace, r_loopvar, r_depth, r_countdown, r_accessor, r_scratch, r_sticky, r_buildall, r_tickorder, r_custom, r_statesorder, r_srckeys, r_iterwhole
+from rules import r_hist, r_lock, r_errdrop, r_coord, r_keyid, r_opcode, r_doaction, r_cancel, r_idle, r_loop, r_traverse, r_repeat, r_chv2, r_wait, r_macro, r_seq, r_override, r_reload, r_pipeline, r_dynmacro, r_vkey, r_layers, r_panic, r_prodcons, r_span, r_rec, r_evict, r_coordspace, r_loopvar, r_depth, r_countdown, r_accessor, r_scratch, r_sticky, r_buildall, r_tickorder, r_custom, r_statesorder, r_srckeys, r_iterwhole, r_boolshort
 
 PROPS = {
     "C01": {
@@ -54,7 +54,7 @@ PROPS = {
                        "char-boundary safety of span slicing beyond the reviewed lexer invariant",
     },
     "C04": {
-        "rules": [r_coord.run, r_doaction.rule_state_push, r_layers.rule_fill, r_layers.rule_press_dedup, r_doaction.rule_state_clear, r_buildall.run_for("C04"), r_pipeline.run_cfg_mirror, r_cancel.rule_retain_all],
+        "rules": [r_coord.run, r_doaction.rule_state_push, r_layers.rule_fill, r_layers.rule_press_dedup, r_doaction.rule_state_clear, r_buildall.run_for("C04"), r_pipeline.run_cfg_mirror, r_cancel.rule_retain_all, r_pipeline.run_layer_lists],
         "explanation": "Narrow: (R-FILL) the default fill of unassigned layer positions is decided from block-unmapped-keys and the "
                        "key only, never from the layer index, and position 0 is forced to NoOp; decides the release half of layered remapping — every state a press creates is keyed on the "
                        "coordinate (never the layer) and removed by Release at that coordinate (R-COORD); the key / layer / custom "
@@ -63,7 +63,7 @@ PROPS = {
                        "millisecond — functions of run-time values",
     },
     "C05": {
-        "rules": [r_wait.run_all, r_evict.run_c05, r_tickorder.rule_wait_gate, r_tickorder.rule_tick_together],
+        "rules": [r_wait.run_all, r_evict.run_c05, r_tickorder.rule_wait_gate, r_tickorder.rule_tick_together, r_wait.rule_lookahead],
         "explanation": "Decides: (R-WAIT) each waiting_into_hold/tap/timeout clears its slot on every path before do_action (a "
                        "decision is consumed once) and performs an action whose provenance is exactly the hold / tap / "
                        "timeout_action field; Layout::tick and process_extra_waitings dispatch the four WaitingAction variants to "
@@ -118,7 +118,7 @@ PROPS = {
                        "(see C01/C02 R-EVICT) — run-time values",
     },
     "C09": {
-        "rules": [r_traverse.run_chords, r_chv2.run_all, r_buildall.run_for("C09"), r_traverse.run_rebuild, r_iterwhole.run_for("C09")],
+        "rules": [r_traverse.run_chords, r_chv2.run_all, r_buildall.run_for("C09"), r_traverse.run_rebuild, r_iterwhole.run_for("C09"), r_chv2.rule_truncated],
         "explanation": "Narrow: (R-CHV2-REL) v2: release bookkeeping dominates every wholesale removal from the v2 queue, active "
                        "chords leave only via clear_released_chords which queues their virtual Release; (R-CHV2-DISABLED) every "
                        "chord-selecting lookup in process_presses filters on disabled layers (sibling agreement); (R-CH1-GUARD) v1: "
@@ -177,7 +177,7 @@ PROPS = {
         "not_decided": "which of several output keys is preferred; layer search order — run-time values",
     },
     "C10": {
-        "rules": [r_opcode.run_all, r_doaction.rule_fork_keys, r_hist.run, r_accessor.run, r_buildall.run_for("C10"), r_traverse.run_rebuild],
+        "rules": [r_opcode.run_all, r_doaction.rule_fork_keys, r_hist.run, r_accessor.run, r_buildall.run_for("C10"), r_traverse.run_rebuild, r_boolshort.run],
         "explanation": "Decides the encoding layer of switch and what it is evaluated over: (R-ACCESSOR) State::coord / State::keycode, "
                        "which feed the `input` and key conditions, return Some for every State variant that has the field; (a) the opcode tag constants partition u16 (evaluated constants); "
                        "(b) every OpCode constructor's tag and bit-fields are decoded by opcode_type into the OpCodeType variant its "
